@@ -190,7 +190,7 @@ pub fn eval(expr: Node) -> Result<i64, Box<dyn error::Error>> {
             if args.len() > 1 {
                 let mut result = i64::MAX;
                 for arg in <Vec<Node> as Clone>::clone(&args).into_iter() {
-                    result = eval(arg).unwrap().min(result);
+                    result = eval(arg)?.min(result);
                 }
                 Ok(result)
             } else {
@@ -204,7 +204,7 @@ pub fn eval(expr: Node) -> Result<i64, Box<dyn error::Error>> {
             if args.len() > 1 {
                 let mut result = i64::MIN;
                 for arg in <Vec<Node> as Clone>::clone(&args).into_iter() {
-                    result = eval(arg).unwrap().max(result);
+                    result = eval(arg)?.max(result);
                 }
                 Ok(result)
             } else {
@@ -217,7 +217,7 @@ pub fn eval(expr: Node) -> Result<i64, Box<dyn error::Error>> {
         Avg(args) => {
             let mut result: i128 = 0;
             for arg in <Vec<Node> as Clone>::clone(&args).into_iter() {
-                result += eval(arg).unwrap() as i128;
+                result += eval(arg)? as i128;
             }
             let len = args.len() as i128;
             Ok((result / len) as i64)
@@ -225,7 +225,7 @@ pub fn eval(expr: Node) -> Result<i64, Box<dyn error::Error>> {
         Med(args) => {
             let mut results = vec![];
             for arg in <Vec<Node> as Clone>::clone(&args).into_iter() {
-                results.push(eval(arg).unwrap());
+                results.push(eval(arg)?);
             }
             results.sort_by(|a, b| a.partial_cmp(b).unwrap());
             let len = results.len();
